@@ -45,6 +45,8 @@ def jobs(tier):
             out.append(("create.%s.%s" % (which, shape), "job_create", dict(which=which, shape=shape, K=K, edits=0, mode="sizes")))
         out.append(("create-opts.%s" % which, "job_create", dict(which=which, shape="flat2", K=2, edits=0, mode="opts")))
         out.append(("create+edit.%s" % which, "job_create", dict(which=which, shape="flat2", K=2, edits=1 if q else 2, mode="edits")))
+    for version in (1, 3):
+        out.append(("edit-lengths.v%d" % version, "job_edit_lengths", dict(version=version)))
     for version in (1, 2, 3):
         out.append(("edit2.v%d" % version, "job_edits", dict(version=version, n=2)))
         if not q:
@@ -260,6 +262,47 @@ def job_edits(E, version, n, _mutants=None):
     E.witnesses.setdefault("two piece-layer entries", True)
 
 
+LEN_STEP = {"comment": ["unnamed", "cleared", "str"], "source": ["unnamed", "str"], "announce": ["unnamed", "cleared", "list1"]}
+
+
+def job_edit_lengths(E, version, _mutants=None):
+    """Length-sensitive part of 'nothing follows the top-level dictionary': the
+    bencoded length of every opaque string is a solver variable (1..9 characters),
+    files have sizes and handles opened without truncation overwrite in place."""
+    from symx.loader import ben_copy, ben_len
+    force = {k: True for k in ALLKEYS}
+    force["comment-top"] = False
+    force["layers"] = True
+    base = ew.base_meta(E, version, force)
+    fs = AFS()
+    w = World(fs, mutants=_mutants)
+    w.track_lengths = True
+    stored = ben_copy(base)
+    fs.add_token(ew.MPATH, BenTok(stored), size=ben_len(stored, w))
+    kinds = {f: opts[E.choice("e0.%s" % f, len(opts))] for f, opts in LEN_STEP.items()}
+    req = ew.request(E, kinds, tag="e0")
+    for v in req.values():
+        for x in (v if isinstance(v, list) else [v]):
+            if isinstance(x, OStr):
+                x._nonempty = True
+    try:
+        w.mod("edit").edit_torrent(ew.MPATH, dict(req))
+    except Unsupported:
+        raise
+    except Exception as ex:  # noqa: BLE001
+        if any(isinstance(v, OStr) and f in ew.TOP and v._split.get(None) == [] for f, v in req.items()):
+            return
+        E.fail("C06.edit.no-exception", "%s: %s" % (type(ex).__name__, ex))
+        return
+    got = ew.file_obj(fs)
+    E.check(isinstance(got, dict), "C06.edit.nothing-follows",
+            "after the edit the metafile holds a complete dictionary followed by %s" % (("leftover bytes of the previous file",) if isinstance(got, tuple) else ""))
+    if isinstance(got, dict):
+        check_canonical(E, got, "C06.edit")
+    for k in WITNESSES:
+        E.witnesses.setdefault(k, True)
+
+
 # ------------------------------------------------------------------ concrete replay
 
 def _strict(path, version):
@@ -332,6 +375,8 @@ def replay(params, model, notes, workdir, seed):
             if bad:
                 return bad
         return bad
+    if "n" not in params:
+        return _replay_lengths(params, model, workdir, mods)
     version, n = params["version"], params["n"]
     allp = int(model.get("base.preset", 0))
     base = c07.conc_base(version, {"base.%s" % k: allp for k in ALLKEYS})
@@ -355,6 +400,39 @@ def replay(params, model, notes, workdir, seed):
     return bad
 
 
+def _replay_lengths(params, model, workdir, mods):
+    """Strings get the lengths the solver chose (benlen = 2 + number of characters)."""
+    from harness import c07
+
+    def L(name, default=5):
+        return max(1, int(model.get("benlen.%s" % name, default + 2)) - 2)
+    version = params["version"]
+    base = c07.conc_base(version, {"base.%s" % k: 1 for k in ALLKEYS})
+    base["announce"] = "a" * L("base.announce")
+    base["announce-list"] = [[base["announce"]]]
+    base["httpseeds"] = ["h" * L("base.httpseed")]
+    base["url-list"] = ["w" * L("base.webseed")]
+    base["info"]["comment"] = "c" * L("base.comment")
+    base["info"]["source"] = "s" * L("base.source")
+    mpath = os.path.join(workdir, "m.torrent")
+    with open(mpath, "wb") as f:
+        f.write(refconc.bencode(base))
+    req = {}
+    for f_, opts in LEN_STEP.items():
+        k = opts[int(model.get("e0.%s" % f_, 0))]
+        if k == "cleared":
+            req[f_] = ""
+        elif k == "str":
+            req[f_] = "n" * L("reqe0.%s" % f_)
+        elif k == "list1":
+            req[f_] = ["l" * L("reqe0.%s.0" % f_)]
+    try:
+        mods["torrentfile.edit"].edit_torrent(mpath, dict(req))
+    except Exception as ex:  # noqa: BLE001
+        return ["C06.edit.no-exception: %s" % ex]
+    return _strict(mpath, version)
+
+
 def canaries(tier):
     return [
         ("sort_meta: piece layers left in traversal order", {"torrent": [(
@@ -362,6 +440,10 @@ def canaries(tier):
          ["create.2a.flat2", "create.3a.order2"]),
         ("edit: top-level dictionary not re-sorted", {"edit": [("    meta = dict(sorted(meta.items()))\n", "")]},
          ["edit2.v1", "create+edit.2a"]),
+        ("edit: new metafile written over a copy of the old one without truncation", {"edit": [
+            ("import os\nimport logging", "import os\nimport shutil\nimport logging"),
+            ("        pyben.dump(meta, tempname)\n", "        shutil.copy2(metafile, tempname)\n        with open(tempname, \"r+b\") as tempfd:\n            pyben.dump(meta, tempfd)\n")]},
+         ["edit-lengths.*"]),
         ("MetaFile: private stored as a boolean", {"torrent": [(
             "            self.meta[\"info\"][\"private\"] = 1", "            self.meta[\"info\"][\"private\"] = True")]},
          ["create-opts.1", "create.1.single"]),
